@@ -235,6 +235,19 @@ def emit (redirect : Option Str) (init : List (Str × Str)) (ops : List Op) (coo
     | .error _ => .crash "ValueError"
     | .ok st2 => .sent r.2 (listHeaders st2 (cookies.map defaultCookie))
 
+/-- text outside Latin-1 somewhere in the header list -/
+def wideHeaders (hs : List (Str × Str)) : Bool :=
+  hs.any fun kv => kv.1.any (fun c => decide (256 ≤ c)) || kv.2.any (fun c => decide (256 ≤ c))
+
+/-- the ASGI presentation of the same emission: `list_headers(as_bytes=True)` encodes every name and value as
+Latin-1 (one byte per character) and raises `UnicodeEncodeError` - nothing is sent - when some text is outside
+Latin-1; the WSGI presentation hands the native strings over as they are -/
+def emitAsgi (redirect : Option Str) (init : List (Str × Str)) (ops : List Op) (cookies : List (Str × Str)) :
+    Emitted :=
+  match emit redirect init ops cookies with
+  | .sent trace hs => if wideHeaders hs then .crash "UnicodeEncodeError" else .sent trace hs
+  | e => e
+
 /-! ### Line protocol -/
 
 def fields (s : String) : List Str := (s.splitOn ":").map Wire.parseNatList
@@ -300,6 +313,19 @@ def runEmit (args : List String) : String :=
   let init := parsePairs ((args[2]?).getD "N")
   let cookies := parsePairs ((args[3]?).getD "N")
   match emit redirect init ((args.drop 4).filterMap parseOp) cookies with
+  | .crash k => "crash " ++ k
+  | .sent outs hs => renderTrace outs hs
+
+/-- `hdr_emit1 <wsgi|asgi> plain|redirect <url> <init> <cookies> <op>…`: one interface alone (text outside
+Latin-1 allowed: the two presentations differ there) -/
+def runEmit1 (args : List String) : String :=
+  let asgi := (args[0]?).getD "" == "asgi"
+  let rest := args.drop 1
+  let redirect := if (rest[0]?).getD "" == "redirect" then some (Wire.listArg rest 1) else none
+  let init := parsePairs ((rest[2]?).getD "N")
+  let cookies := parsePairs ((rest[3]?).getD "N")
+  let ops := (rest.drop 4).filterMap parseOp
+  match (if asgi then emitAsgi redirect init ops cookies else emit redirect init ops cookies) with
   | .crash k => "crash " ++ k
   | .sent outs hs => renderTrace outs hs
 
